@@ -585,7 +585,8 @@ def knownClause (c : Cache) (name : BList) (ty now : Nat) (ans : List String) : 
     match bad with
     | some b => some b
     | none =>
-      if held.any fun e => !e.record.flush && decide (now < e.record.created + 500 * e.record.ttl) && !(listed.any fun p => p.1 == e) then
+      if held.any fun e => !e.record.flush && decide (now < e.record.created + 500 * e.record.ttl) &&
+          decide (2 * (e.record.expires - now) ≥ 1000 * e.record.ttl) && !(listed.any fun p => p.1 == e) then
         some "C10.shared-record-with-more-than-half-left-not-listed"
       else none
 
